@@ -103,7 +103,15 @@ def r09_3(ctx: Ctx):
     ctx.rule(rid, 'both directions iterate range(density) levels with the same radix; the inverse accumulates '
                   'x = sum_j digit_j * B^-(j+1) starting from 0')
     e = evo.evo_of(ctx)
-    dens = e.density_field()
+    try:
+        dens = e.density_field()
+    except AnalysisError as err:
+        lp0 = e.level_loop(e.forward)
+        ctx.fail(rid, e.forward.short, e.forward.loc(lp0),
+                 f'the level loop of the forward descent iterates {ast.unparse(lp0.iter)}, which is not an attribute '
+                 f'of the evolvent: the two directions are not tied to one level count, so the inverse image need '
+                 f'not be the preimage of the image ({err})', key=f'{rid}::{e.forward.short}::level-loop')
+        return
     Bf = e.radix_field()
     fn = e.inverse
     lp = e.level_loop(fn)
